@@ -335,6 +335,10 @@ func func_First(rtParams FunctionParameterTypes, val any) (any, error) {
 	}
 
 	v := reflect.ValueOf(val)
+	if k := v.Kind(); (k == reflect.Slice || k == reflect.Array) && v.Len() == 0 {
+		return nil, fmt.Errorf("nothing in array")
+	}
+
 	if isEmptyValue(v) {
 		return decimal.Zero, nil
 	}
@@ -364,6 +368,10 @@ func func_Last(rtParams FunctionParameterTypes, val any) (any, error) {
 	}
 
 	v := reflect.ValueOf(val)
+	if k := v.Kind(); (k == reflect.Slice || k == reflect.Array) && v.Len() == 0 {
+		return nil, fmt.Errorf("nothing in array")
+	}
+
 	if isEmptyValue(v) {
 		return decimal.Zero, nil
 	}
